@@ -321,6 +321,8 @@ pub fn exec_writer(t: &[&str]) -> String {
     let colon = t.iter().position(|x| *x == ":").expect("harness: wr needs ':'");
     let calls = &t[colon + 1..];
     let path = scratch_file("wr");
+    // the target path already holds an OLDER, longer file (521 junk words): a writer replaces the file, it does not patch it
+    let _ = std::fs::write(&path, vec![0xA5u8; 4168]);
     let mut out: Vec<String> = Vec::new();
     let body = std::panic::catch_unwind(std::panic::AssertUnwindSafe(|| {
         match t[0] {
@@ -346,7 +348,7 @@ pub fn exec_writer(t: &[&str]) -> String {
             "int" => {
                 let width = parse_usize(t[1]);
                 let r = if t[2] == "default" { IntVectorWriter::new(&path, width) } else { IntVectorWriter::with_buf_len(&path, width, parse_usize(t[2])) };
-                let mut w = match r { Ok(w) => w, Err(_) => { out.push("new:err".to_string()); return; } };
+                let mut w = match r { Ok(w) => w, Err(_) => { out.push("new:err".to_string()); let _ = std::fs::remove_file(&path); return; } };
                 for c in calls {
                     let r = std::panic::catch_unwind(std::panic::AssertUnwindSafe(|| -> Option<String> {
                         match c.as_bytes()[0] {
